@@ -1116,7 +1116,16 @@ mod builtins {
 
         if !tmp.is_empty() {
             if let Some(filler) = fill_with {
-                for _ in 0..count - tmp.len() {
+                // like `range` this refuses to create more than 100.000 items
+                let missing = count - tmp.len();
+                if missing > 100000 {
+                    return Err(Error::new(
+                        ErrorKind::InvalidOperation,
+                        "cannot fill the last batch with that many items",
+                    ));
+                }
+                tmp.reserve(missing);
+                for _ in 0..missing {
                     tmp.push(filler.clone());
                 }
             }
